@@ -349,7 +349,10 @@ type Server struct {
 
 	concurrency atomic.Uint32
 	open        atomic.Int32
-	stop        atomic.Int32
+	// listening is the number of running Serve loops, each of which holds one
+	// extra count in open while it waits for connections.
+	listening atomic.Int32
+	stop      atomic.Int32
 
 	rejectedRequestsCount atomic.Uint32
 
@@ -2004,7 +2007,11 @@ func (s *Server) Serve(ln net.Listener) error {
 	// a connection Shutdown is called which reads open as 0 because it isn't
 	// incremented yet.
 	s.open.Add(1)
-	defer s.open.Add(-1)
+	s.listening.Add(1)
+	defer func() {
+		s.listening.Add(-1)
+		s.open.Add(-1)
+	}()
 
 	for {
 		c, err := acceptConn(s, ln, &lastPerIPErrorTime)
@@ -2270,15 +2277,16 @@ func (s *Server) GetCurrentConcurrency() uint32 {
 //
 // This function is intended be used by monitoring systems.
 func (s *Server) GetOpenConnectionsCount() int32 {
-	if s.stop.Load() == 0 {
-		// Decrement by one to avoid reporting the extra open value that gets
-		// counted while the server is listening.
-		return s.open.Load() - 1
+	// Every running Serve loop holds one extra count in s.open while it is
+	// listening; subtract exactly those, so that a server used only through
+	// ServeConn, or whose Serve has returned, does not report -1.
+	n := s.open.Load() - s.listening.Load()
+	if n < 0 {
+		// The two counters are read one after the other; never report a
+		// negative number of connections.
+		n = 0
 	}
-	// This is not perfect, because s.stop could have changed to zero
-	// before we load the value of s.open. However, in the common case
-	// this avoids underreporting open connections by 1 during server shutdown.
-	return s.open.Load()
+	return n
 }
 
 // GetRejectedConnectionsCount returns a number of rejected connections.
